@@ -13,6 +13,7 @@ import (
 	"regexp"
 	"sort"
 	"strings"
+	"syscall"
 )
 
 // seqLenTerm returns the length of a byte/str sequence value as a value.
@@ -748,6 +749,14 @@ func addMiscIntrinsics(m map[string]intrinsicFn) {
 		}
 		return strSym(t)
 	}
+
+	m["(syscall.Signal).String"] = func(fr *frame, a []value) value {
+		if n, ok := a[0].(int64); ok {
+			return syscall.Signal(n).String()
+		}
+		return "signal"
+	}
+	m["(syscall.Signal).Signal"] = func(fr *frame, a []value) value { return nil }
 
 	// os: environment comes from the harness (verifSetenv); default empty
 	m["os.Getenv"] = func(fr *frame, a []value) value {
